@@ -64,7 +64,7 @@ def ops_for(rng, p, st, tier):
             break
         steps, _ = leaves[i % len(leaves)] if i < len(leaves) else rng.choice(leaves)
         tid = P.leaf_tid(p.t, steps) or 1
-        mode = rng.choice(["valid"] * 6 + ["trailing", "ws", "junk", "other"])
+        mode = rng.choice(["valid"] * 6 + ["trailing", "ws", "junk", "other", "partial"])
         if mode == "other":
             txt = P.payload_for(rng, rng.choice([1, 6, 9, 13, 12]), "valid")
         else:
@@ -74,6 +74,13 @@ def ops_for(rng, p, st, tier):
         ops.append(dict(op=kind, keys=P.key_repr(rng, steps), payload=list(txt.encode()), oracle=orc, _steps=steps, _leaf=True, _tid=tid))
         # read back through an equivalent key in another representation
         ops.append(dict(op=rng.choice(["ser", "ser", "ref"]), keys=P.key_repr(rng, steps), oracle={}, _steps=steps, _leaf=True, _readback=True))
+    # ---- compound leaves: a payload whose first elements are valid and a later one is not, then read back
+    for steps, _ in leaves:
+        tid = P.leaf_tid(p.t, steps) or 1
+        if tid in (12, 14):
+            ops.append(dict(op="de", keys=P.key_repr(rng, steps), payload=list(P.payload_for(rng, tid, "valid").encode()), oracle={}, _steps=steps, _leaf=True, _tid=tid))
+            ops.append(dict(op="de", keys=P.key_repr(rng, steps), payload=list(P.payload_for(rng, tid, "partial").encode()), oracle={}, _steps=steps, _leaf=True, _tid=tid))
+            ops.append(dict(op="ser", keys=P.key_repr(rng, steps), oracle={}, _steps=steps, _leaf=True, _readback=True))
     # ---- malformed / surplus / truncated keys on every operation
     nbad = 25 if quick else 120
     for _ in range(nbad):
